@@ -14,6 +14,13 @@ PROPERTIES = {
     },
 }
 
+VERUS_REPLAY_KEYS = {
+    "C06_width": ["C06.integer_constraints", "C06.int_type_token"],
+    "C02_C05_assembly": ["C02.assembly"],
+    "C02_unnesting": ["C02.needs_unnesting"],
+    "C14_numbering": ["C14.assign"],
+}
+
 PROPERTIES.update({
     "C02": {
         "verus": ["C02_C05_assembly", "C02_unnesting"],
@@ -37,6 +44,14 @@ PROPERTIES.update({
     "C14": {
         "verus": ["C14_numbering"],
         "kani_quick": [], "kani_thorough": [],
+        "bounded_native": [
+            {"unit": "b_c14_enumerated_parser", "functions": "lexer::enumerated::enumerated / enumerated_body / enumeration_items (nom glue around assign_enumeral_numbers)",
+             "bound": "1..=3 root items and 0..=2 additions, each identifier-only or numbered from {-1,0,1,2,5}, with/without extension marker (exhaustive product); source text generated, parsed by the real parser and compared with assign_enumeral_numbers on the written numbers"},
+        ],
+        "bounded_native_thorough": [
+            {"unit": "b_c14_enumerated_parser_full", "functions": "same as b_c14_enumerated_parser",
+             "bound": "1..=5 root items and 0..=3 additions over the same alphabet (the property's own exhaustive set; exhaustive prefix then random sample up to the evaluation limit)"},
+        ],
         "unverified": [
             "the nom parser of enumeration items (lexer/enumerated.rs: enumeration_items / enumeral) and the zip of the assigned numbers back onto the parsed items in enumerated_body (iterator adapters inside an `impl Parser` closure) — names and order are carried by that glue, not by a contract",
             "Enumerated::from (root ++ additions; under contract in C02/C05)",
@@ -48,8 +63,12 @@ PROPERTIES.update({
         "verus": [],
         "kani_quick": ["k_c03_tagenv_add", "k_c03_asn_tag_from", "k_c03_module_header_from", "k_layout_sentinel_scalars"],
         "kani_thorough": [],
+        "bounded_native": [
+            {"unit": "b_c03_apply_tagenv_lists", "functions": "ToplevelDefinition::apply_tagging_environment (intermediate/mod.rs)",
+             "bound": "module default in {AUTOMATIC, IMPLICIT, EXPLICIT} x kind in {SEQUENCE, SET, CHOICE, primitive} x tag on the assignment x 0..=3 components, each untagged / keyword-less / IMPLICIT / EXPLICIT (exhaustive product, 3108 cases)"},
+        ],
         "unverified": [
-            "WHERE the combination rule is applied: ToplevelDefinition::apply_tagging_environment (depth 1 only; never visits SequenceOrSetOf::element_tag or anonymous nested types) — iter_mut().for_each closures over [SequenceOrSetMember] (Kani layout defect; outside Verus's subset)",
+            "WHERE the combination rule is applied: ToplevelDefinition::apply_tagging_environment is outside both verifiers (iter_mut().for_each closures; Kani layout defect and a 15-minute stall); it is covered only by the bounded stand-in b_c03_apply_tagenv_lists (depth 1: assignment tag, SEQUENCE/SET components, CHOICE alternatives). It never visits SequenceOrSetOf::element_tag or anonymous nested types, which no contract here covers",
             "TAGS clause parsing (lexer/module_header.rs environments: a module without TAGS clause is parsed as IMPLICIT, pinned by a unit test) and asn_tag (nom combinators)",
             "format_tag, tagged-CHOICE-forced-explicit, automatic_tags selection (generator/rasn: TokenStream code)",
             "the clauses 'at every nesting depth', 'tagged CHOICE or open type => explicit' and 'tagged automatically exactly when ...' are NOT decided by this check",
@@ -70,11 +89,15 @@ PROPERTIES.update({
         "verus": [],
         "kani_quick": ["k_c07_hex_to_bools", "k_c07_octet_to_bits", "k_c07_bits_to_octets", "k_c07_well_known", "k_c07_unknown_arc_names"],
         "kani_thorough": ["k_c07_long_bits_to_octets"],
+        "bounded_native": [
+            {"unit": "b_c07_named_bits", "functions": "ASN1Value::link_with_type (BitStringNamedBits arm) -> bit_string_value_from_named_bits (validator/linking/mod.rs)",
+             "bound": "1..=3 named bits with distinct numbers from 0..=5 (any declaration order) x every subset of names listed in the value (exhaustive product)"},
+        ],
         "kani_bounded": {"k_c07_bits_to_octets": "bit-string lengths {0,8,9} with symbolic contents", "k_c07_long_bits_to_octets": "lengths {1,7,15,16,17,24}",
                          "k_c07_octet_to_bits": "one octet at a time, all 256 values (complete per octet); slice length 1",
                          "k_c07_unknown_arc_names": "a fixed list of 10 non-table names"},
         "unverified": [
-            "bit_string_value_from_named_bits (validator/linking/mod.rs:1616-1631): scans [DistinguishedValue] (Kani layout defect) with map/any/find_map closures (outside Verus)",
+            "bit_string_value_from_named_bits (validator/linking/mod.rs): scans [DistinguishedValue] (Kani layout defect) with map/any/find_map closures (outside Verus) — covered only by the bounded stand-in b_c07_named_bits",
             "all literal parsing (nom: bstring/hstring/cstring/number/OID) and \"\" unescaping (str::replace)",
             "link_with_type's dispatch and reference resolution (iterator closures, BTreeMap)",
             "format_oid and value_to_tokens (TokenStream code)",
